@@ -131,6 +131,42 @@ def correlated_conditions(fn):
     fn._cache[key] = out
     return out
 
+def infeasible_edges(fn):
+    """CFG edges that cannot be taken: the NULL side of a test of a merged pointer all of whose incoming values were tested
+    non-NULL on the way in (`p = alloc(); if (!p) return; ... q = phi(p, p2); if (q != NULL) store(q)`)"""
+    key = ('infeasible',)
+    if key in fn._cache:
+        return fn._cache[key]
+    out = set()
+    fn._cache[key] = out            # (guards against re-entry through the helpers below)
+    try:
+        from .nullcheck import nonnull_edges
+        idom = dominators(fn)
+        for b in fn.order:
+            t = b.insts[-1]
+            if t.op != 'br' or len(t.targets) != 2 or not t.ops:
+                continue
+            c = fn.defs.get(t.ops[0])
+            if c is None or c.op != 'icmp' or c.pred not in ('eq', 'ne') or 'null' not in c.ops:
+                continue
+            pv = c.ops[0] if c.ops[1] == 'null' else c.ops[1]
+            ph = fn.defs.get(pv)
+            if ph is None or ph.op != 'phi' or ph.bb is not b:
+                continue
+            ok = True
+            for v, lab in ph.incoming:
+                pred = fn.blocks[lab]
+                if v == 'null' or not isinstance(v, str) or not v.startswith('%'):
+                    ok = False; break
+                if not any((sb is pred and db is b) or db is pred or dominates(idom, db, pred) for (sb, db) in nonnull_edges(fn, {v})):
+                    ok = False; break
+            if ok:
+                null_target = fn.blocks[t.targets[0] if c.pred == 'eq' else t.targets[1]]
+                out.add((b, null_target))
+    except Exception:
+        pass
+    return out
+
 def _edge_truth(fn, src, dst, conds):
     t = src.insts[-1]
     if t.op == 'br' and len(t.targets) == 2 and t.ops and t.ops[0] in conds and t.targets[0] != t.targets[1]:
@@ -202,6 +238,8 @@ def reaches_without(fn, start, goal_pred, avoid_pred, start_idx=0):
             continue
         trd = dict(tr)
         for s in b.succs:
+            if (b, s) in infeasible_edges(fn):
+                continue
             ntr = tr
             et = _edge_truth(fn, b, s, conds) if conds else None
             if et is not None:
